@@ -86,9 +86,17 @@ func AnalyzeMetrics15sShortcut(script *logql_parser.LogQLScript) bool {
 		if ppl.Drop != nil {
 			return false
 		}
+		// metrics_15s holds pre-aggregated counts per stored series: it cannot honour a
+		// stage that rejects entries or relabels them
+		if ppl.LabelFilter != nil || ppl.LabelFormat != nil {
+			return false
+		}
 		if ppl.LineFilter != nil {
 			str, err := ppl.LineFilter.Val.Unquote()
 			if str != "" || err != nil {
+				return false
+			}
+			if ppl.LineFilter.Fn != "|=" && ppl.LineFilter.Fn != "|~" {
 				return false
 			}
 		}
